@@ -37,6 +37,7 @@ from harness import gallina as g
 from harness.util import import_df, attempt
 
 df = import_df()
+vcc.vtkObject.GlobalWarningDisplayOff()      # damaged files: VTK's error text is not an observable
 
 TMP = tempfile.mkdtemp(prefix="c16_")
 _counter = [0]
@@ -93,8 +94,9 @@ def gen_mesh(rng, exact, nmax, nd=3, cells_max=48):
                 lo = F(rng.randint(-256, 256), 8)
                 hi = lo + k * cell
             else:
-                off = rng.choice([0.0, 0.0, round(rng.uniform(-50, 50), 2), round(rng.uniform(-5000, 5000), 1)])
-                ext = round(rng.uniform(0.5, 80), rng.choice([0, 1, 2]))
+                off = rng.choice([0.0, 0.0, round(rng.uniform(-50, 50), 2), round(rng.uniform(-5000, 5000), 1),
+                                  rng.uniform(-50, 50)])
+                ext = round(rng.uniform(0.5, 80), rng.choice([0, 1, 2, 15]))
                 lo = F(off * s)
                 hi = F((off + ext) * s)
                 if hi == lo:
@@ -163,6 +165,13 @@ def gen_subs(rng, m):
                 a.append(F(flo) if i0 == 0 else F(flo + i0 * c))
                 b.append(F(fhi) if i1 == n[ax] else F(flo + i1 * c))
         subs.append([name, [S(x) for x in a], [S(x) for x in b]])
+    if not m["exact"]:
+        # float lattice points at large offsets can miss the (absolute) alignment tolerance of the
+        # subregion setter (C14's subject): keep only what the mesh accepts
+        st, _ = attempt(lambda: df.Mesh(region=df.Region(p1=fls(m["p1"]), p2=fls(m["p2"])), n=m["n"],
+                                        subregions={nm: df.Region(p1=fls(a_), p2=fls(b_)) for nm, a_, b_ in subs}))
+        if st != "ok":
+            return []
     return subs
 
 
@@ -337,7 +346,8 @@ def gen_legacy(rng, exact, nmax):
         nrows = cells + 2
     rows = [[F(rng.randint(-4096, 4096), 64) if exact else F(round(rng.uniform(-1e6, 1e6), 3))
              for _ in range(dim)] for _ in range(nrows)]
-    side = gen_subs(rng, m) if (exact and variant == "plain" and rng.random() < 0.3) else None
+    # (a single-point axis is read with the 1 nm default cell: no side-car there)
+    side = gen_subs(rng, m) if (exact and variant == "plain" and min(n) >= 2 and rng.random() < 0.5) else None
     return dict(kind="legacy", exact=exact, variant=variant, n=n, vec=vec,
                 coords=[[S(x) for x in c] for c in coords],
                 rows=[[S(x) for x in r] for r in rows], side=side)
